@@ -8,7 +8,10 @@ use crate::verif::atomic::AtomicUsize;
 #[cfg(may_verif)]
 use std::sync::atomic::Ordering;
 use std::sync::Arc;
+#[cfg(not(may_verif))]
 use std::thread;
+#[cfg(may_verif)]
+use crate::verif::thread;
 use std::time::{Duration, Instant};
 
 use may_queue::mpsc::Queue;
@@ -32,6 +35,10 @@ fn get_instant() -> &'static Instant {
 // get the current wall clock in ns
 #[inline]
 pub fn now() -> u64 {
+    #[cfg(may_verif)]
+    if let Some(n) = crate::verif::now_ns() {
+        return n;
+    }
     // we need a Monotonic Clock here
     get_instant().elapsed().as_nanos() as u64
 }
@@ -271,6 +278,8 @@ impl<T> TimerThread<T> {
         // wake up the timer thread if it's a new queue
         if is_recal {
             if let Some(t) = self.wakeup.take() {
+                #[cfg(may_verif)]
+                crate::verif::pre_unpark(&t);
                 t.unpark();
             }
         }
@@ -280,6 +289,8 @@ impl<T> TimerThread<T> {
     pub fn del_timer(&self, handle: TimeoutHandle<T>) {
         self.remove_list.push(handle);
         if let Some(t) = self.wakeup.take() {
+            #[cfg(may_verif)]
+            crate::verif::pre_unpark(&t);
             t.unpark();
         }
     }
@@ -297,6 +308,8 @@ impl<T> TimerThread<T> {
 
             if !self.remove_list.is_empty() {
                 if let Some(t) = self.wakeup.take() {
+                    #[cfg(may_verif)]
+                    crate::verif::pre_unpark(&t);
                     t.unpark();
                 }
             }
